@@ -49,7 +49,9 @@ AudRows == { [h |-> h, n |-> n, match |-> AudMatch(h, n), exact |-> AudExact(h, 
 ASSUME \A h \in URLs, n \in URLs : AudExact(h, n) => AudMatch(h, n)
 
 (* ---- confinement: every flow applies the configured strategy to the registration ---- *)
-Flows == {"authorize_code", "implicit", "hybrid", "ccreds", "password", "device", "par", "refresh", "jwt_bearer"}
+\* jwt_bearer_client: the JWT-bearer grant presented by an AUTHENTICATED client whose own registration covers the requested
+\* scope: the signing key's registration still decides
+Flows == {"authorize_code", "implicit", "hybrid", "ccreds", "password", "device", "par", "refresh", "jwt_bearer", "jwt_bearer_client"}
 FlowScopes == {<<"a">>, <<"a", "b">>, <<"a", "*">>, <<"b">>, <<"*">>, <<"a", "b", "a">>}
 Strat(s, p, n) == CASE s = "exact" -> Exact(p, n) [] s = "hier" -> Hierarchic(p, n) [] OTHER -> Wildcard(p, n)
 FlowRows == { [flow |-> f, strat |-> s, dim |-> "scope", p |-> p, n |-> n, accept |-> Strat(s, p, n)] :
@@ -58,7 +60,7 @@ FlowURLs == { [scheme |-> "https", host |-> h, path |-> [segs |-> ps, slash |-> 
                 h \in {"api.example", "evil.example"}, ps \in {<<>>, <<"v1">>, <<"v1", "x">>, <<"v12">>} }
 AudFlowRows == { [flow |-> f, strat |-> s, dim |-> "aud", h |-> h, n |-> n,
                   accept |-> IF s = "exact" THEN AudExact(h, n) ELSE AudMatch(h, n)] :
-                f \in Flows \ {"jwt_bearer"}, s \in {"exact", "default"}, h \in FlowURLs, n \in FlowURLs }
+                f \in Flows \ {"jwt_bearer", "jwt_bearer_client"}, s \in {"exact", "default"}, h \in FlowURLs, n \in FlowURLs }
 
 ASSUME PrintT(<<"ROWS", Cardinality(ScopeRows), Cardinality(AudRows), Cardinality(FlowRows), Cardinality(AudFlowRows)>>)
 ASSUME JsonSerialize(IOEnv.VERIF_TABLE_FLOW, SetToSeq(FlowRows) \o SetToSeq(AudFlowRows))
